@@ -335,7 +335,7 @@ func ruleKeyToLabel(r *Run) {
 			if callee == nil || callee.Pkg == nil || callee.Pkg.Pkg.Path() != "strings" {
 				continue
 			}
-			switch callee.Name() {
+			switch cname(callee) {
 			case "WriteString":
 				if c.Args[1].Known && c.Args[1].C.Kind() == constant.String {
 					if sv := constant.StringVal(c.Args[1].C); sv != "" {
@@ -549,7 +549,7 @@ func ruleIdentPredicates(r *Run) {
 	usesStart, usesRest, emptyCheck := false, false, false
 	for _, c := range callsIn(fn) {
 		if callee := staticCallee(c); callee != nil {
-			n := callee.Name()
+			n := cname(callee)
 			if callee.Origin() != nil {
 				n = callee.Origin().Name()
 			}
